@@ -51,6 +51,21 @@ pub fn main(args: &[String]) {
                         errs.len()
                     )
                 }
+                // byteclass: id hex(ranges a: lo hi lo hi ..) hex(ranges b)  ->  ranges | comparisons | count | table
+                "byteclass" => {
+                    let pairs = |h: &str| -> Vec<(u8, u8)> { unhex(h).chunks(2).map(|c| (c[0], c[1])).collect() };
+                    let (rs, cmps, count, table) = logos_codegen::verif::byteclass_ops(&pairs(p[1]), &pairs(p[2]));
+                    format!(
+                        "{} | {} | {} | {}",
+                        rs.iter().map(|(l, h)| format!("{l}-{h}")).collect::<Vec<_>>().join(","),
+                        cmps.iter()
+                            .map(|(l, h, ex)| format!("{l}-{h}:{}", ex.iter().map(|e| e.to_string()).collect::<Vec<_>>().join("+")))
+                            .collect::<Vec<_>>()
+                            .join(","),
+                        count,
+                        table.iter().map(|b| if *b { '1' } else { '0' }).collect::<String>()
+                    )
+                }
                 // attr: id hex(attribute token text)
                 "attr" => {
                     let ts: proc_macro2::TokenStream = text(p[1]).parse().unwrap();
